@@ -1,12 +1,15 @@
 package harness
 
 import (
+	"encoding/json"
 	"errors"
 	"fmt"
 	"math/rand"
+	"net/http"
 	"os"
 	"path/filepath"
 	"sort"
+	"strings"
 	"sync"
 	"time"
 
@@ -226,8 +229,78 @@ func (c12) Gen(rng *rand.Rand, tier string, k int) *Case {
 			c.Faults = keep
 		}
 	}
+	if rng.Intn(5) == 0 && c.Param[1] == 0 {
+		// the source is the Tiingo client talking to a simulated server (the default source of
+		// cmd/indicator-sync); tickers that can stand in a URL path, UTC days, date order
+		ok := true
+		for _, a := range c.Assets {
+			ok = ok && urlSafeName(a.Name) && a.SrcSwap == 0
+		}
+		if ok {
+			c.Shape = 1
+			if !many && rng.Intn(30) == 0 {
+				// a history of twenty years asked for in one go: a response of more than a megabyte
+				a := &c.Assets[0]
+				a.SrcN, a.SrcFrom, a.SrcAbsent, a.TgtFrom, a.TgtN = 5200+rng.Intn(600), 0, false, 0, rng.Intn(3)
+			}
+		}
+	}
 	c.Policy = genPolicy(rng)
 	return c
+}
+
+func urlSafeName(n string) bool {
+	for _, r := range n {
+		if !(r >= 'A' && r <= 'Z' || r >= 'a' && r <= 'z' || r >= '0' && r <= '9' || r == '.' || r == '-' || r == '_') {
+			return false
+		}
+	}
+	return n != ""
+}
+
+// tiingoServer is the simulated Tiingo end-of-day service of a sync case: it answers
+// /tiingo/daily/<ticker>/prices?startDate=<day> with the ticker's rows dated on or after that
+// day (as the real service does), 404 for a ticker it does not have; bodies arrive in fragments.
+type tiingoServer struct {
+	mu    sync.Mutex
+	data  map[string][]*asset.Snapshot
+	frag  []int
+	calls int
+	bytes int
+}
+
+func (t *tiingoServer) RoundTrip(req *http.Request) (*http.Response, error) {
+	simrt.Yield(-10, "http-roundtrip")
+	parts := strings.Split(strings.Trim(req.URL.Path, "/"), "/")
+	status, body := 404, []byte(`{"detail":"Not found."}`)
+	if len(parts) == 4 && parts[0] == "tiingo" && parts[1] == "daily" && parts[3] == "prices" {
+		start, err := time.Parse("2006-01-02", req.URL.Query().Get("startDate"))
+		t.mu.Lock()
+		rows, ok := t.data[parts[2]]
+		t.calls++
+		t.mu.Unlock()
+		if err != nil {
+			status, body = 400, []byte(`{"detail":"bad startDate"}`)
+		} else if ok {
+			out := []asset.TiingoEndOfDay{}
+			for _, s := range rows {
+				if !s.Date.Before(start) {
+					out = append(out, asset.TiingoEndOfDay{Date: s.Date.UTC(), Open: s.Open, High: s.High, Low: s.Low, Close: s.Close, Volume: int64(s.Volume),
+						AdjOpen: s.Open, AdjHigh: s.High, AdjLow: s.Low, AdjClose: s.Close, AdjVolume: int64(s.Volume), Split: 1})
+				}
+			}
+			status = 200
+			body, _ = json.Marshal(out)
+		}
+	}
+	t.mu.Lock()
+	t.bytes = max(t.bytes, len(body))
+	t.mu.Unlock()
+	return &http.Response{
+		StatusCode: status, Status: fmt.Sprintf("%d %s", status, http.StatusText(status)),
+		Proto: "HTTP/1.1", ProtoMajor: 1, ProtoMinor: 1, Header: http.Header{}, Request: req, ContentLength: -1,
+		Body: &FragReader{Data: body, Frag: t.frag, ErrAt: -1, Ctx: req.Context()},
+	}, nil
 }
 
 func (c12) Shrinks(c *Case) []*Case {
@@ -271,6 +344,12 @@ func (c12) Shrinks(c *Case) []*Case {
 		out = append(out, &d)
 	}
 	for i, a := range c.Assets {
+		if a.SrcN > 16 {
+			d := *c
+			d.Assets = append([]AssetSpec{}, c.Assets...)
+			d.Assets[i].SrcN = a.SrcN / 2
+			out = append(out, &d)
+		}
 		if a.SrcN > 0 {
 			d := *c
 			d.Assets = append([]AssetSpec{}, c.Assets...)
@@ -377,7 +456,15 @@ func (c12) Run(c *Case, st *Stats) []Violation {
 	if base != base2000 {
 		st.Faults["dates-in-a-daylight-saving-zone"]++
 	}
-	dir, dbName := "", ""
+	dir, dbName, srcDir := "", "", ""
+	var server *tiingoServer
+	oldTransport := http.DefaultTransport
+	defer func() {
+		http.DefaultTransport = oldTransport
+		if server != nil && server.bytes > 1<<20 {
+			st.Probes["source-responses-longer-than-a-megabyte"]++
+		}
+	}()
 	clientDone := false
 	var srcF, tgtF *FaultRepo
 	var runTimes []float64
@@ -385,14 +472,60 @@ func (c12) Run(c *Case, st *Stats) []Violation {
 	out := simulate(SimOpts{Policy: c.Policy, Record: c.Record, MaxSteps: 3_000_000}, func(s *simrt.Sim) {
 		simrt.GoKind("client", func() {
 			defer func() { clientDone = true }()
-			src := asset.NewInMemoryRepository()
-			var tgt asset.Repository
+			var src, tgt asset.Repository
+			src = asset.NewInMemoryRepository()
+			// every third case builds its repositories the way cmd/indicator-sync does: by kind and
+			// configuration through the factory; half of those read from a file-system source
+			// (only without file faults and with UTC dates: the fault plan and the zone tests are
+			// about the target)
+			factory := c.Seed%3 == 0
+			fsSource := factory && c.Seed%2 == 0 && base == base2000 && c.Shape != 1
+			for _, f := range c.Faults {
+				if strings.HasPrefix(f.Kind, "fs-") {
+					fsSource = false
+				}
+			}
+			build := func(kind, config string) asset.Repository {
+				r, err := asset.NewRepository(kind, config)
+				if err != nil {
+					add("constructor-error", "-", err.Error())
+					return nil
+				}
+				st.Probes["repositories-built-by-the-factory"]++
+				return r
+			}
+			if c.Shape == 1 {
+				server = &tiingoServer{data: map[string][]*asset.Snapshot{}, frag: []int{7, 512, 1, 4096}}
+				http.DefaultTransport = server
+				src = asset.NewTiingoRepository("key")
+				st.Faults["source-is-the-tiingo-client-over-a-simulated-server"]++
+			} else if fsSource {
+				srcDir = runDir()
+				if src = build(asset.FileSystemRepositoryBuilderName, srcDir); src == nil {
+					return
+				}
+				st.Faults["file-system-source"]++
+			} else if factory && c.Shape != 1 {
+				if src = build(asset.InMemoryRepositoryBuilderName, ""); src == nil {
+					return
+				}
+			}
 			switch c.Impl {
 			case "memory":
 				tgt = asset.NewInMemoryRepository()
+				if factory {
+					if tgt = build(asset.InMemoryRepositoryBuilderName, ""); tgt == nil {
+						return
+					}
+				}
 			case "file":
 				dir = runDir()
 				tgt = asset.NewFileSystemRepository(dir)
+				if factory {
+					if tgt = build(asset.FileSystemRepositoryBuilderName, dir); tgt == nil {
+						return
+					}
+				}
 			case "sql":
 				dbName = fmt.Sprintf("db-%d-%d", os.Getpid(), runDirSeq.Add(1))
 				simDBsMu.Lock()
@@ -417,7 +550,11 @@ func (c12) Run(c *Case, st *Stats) []Violation {
 						d[k-1], d[k] = d[k], d[k-1]
 						st.Faults["source-not-in-date-order"]++
 					}
-					if err := fill(src, a.Name, srcData[a.Name]); err != nil {
+					if server != nil {
+						server.mu.Lock()
+						server.data[a.Name] = srcData[a.Name]
+						server.mu.Unlock()
+					} else if err := fill(src, a.Name, srcData[a.Name]); err != nil {
 						add("setup-error", "-", err.Error())
 						return
 					}
@@ -599,6 +736,9 @@ func (c12) Run(c *Case, st *Stats) []Violation {
 	})
 	if dir != "" {
 		os.RemoveAll(dir)
+	}
+	if srcDir != "" {
+		os.RemoveAll(srcDir)
 	}
 	if dbName != "" {
 		simDBsMu.Lock()
